@@ -187,6 +187,27 @@ def wLine (ws : List String) : String := Id.run do
     let m := (reparseStatus .unchanged oldA newA true).rank
     if m ≠ status then issues := issues ++ [s!"DIFF status of reparse(append) for {text} ++ {app}: model {m} impl {status}"]
     if showAtoms newA ≠ get "newatoms" then issues := issues ++ [s!"DIFF atoms of {text} ++ {app}: model {showAtoms newA} impl {get "newatoms"}"]
+    -- the shapes for which narrowing is a theorem (C07_Append / C07_Narrows / C07_SmartCase / C07_Sublist) or a list fact
+    -- about the kinds' specifications: the atom in the last atom's place keeps the old needle (as a subsequence for the
+    -- fuzzy kind, as an infix for substring, as a prefix for prefix; `$` may turn fuzzy into postfix and the others into
+    -- exact), case folding may only be switched off, normalization is unchanged
+    if m = 1 then
+      match oldA.getLast?, newA[oldA.length - 1]? with
+      | some a, some b =>
+        let bn := if a.ignoreCase && !b.ignoreCase then b.needle.map asciiLower else b.needle
+        let flagsOk := !( !a.ignoreCase && b.ignoreCase) && a.normalize == b.normalize
+        let isInfix : Bool := (List.range (bn.length + 1)).any fun i => (bn.drop i).take a.needle.length == a.needle
+        let shapeOk : Bool := match a.kind, b.kind with
+          | .fuzzy, .fuzzy => Spec.subseqB a.needle bn
+          | .fuzzy, .postfix => Spec.subseqB a.needle bn
+          | .substring, .substring => isInfix
+          | .substring, .exact => isInfix
+          | .prefix, .prefix => bn.take a.needle.length == a.needle
+          | .prefix, .exact => bn.take a.needle.length == a.needle
+          | _, _ => false
+        if !(flagsOk && shapeOk && !a.negative && !b.negative) then
+          issues := issues ++ [s!"DIFF the append shortcut is taken for an edit outside the narrowing shapes: {text} ++ {app}: last atom {showAtom a} becomes {showAtom b}"]
+      | _, _ => pure ()
   if issues.isEmpty then "ok" else " ## ".intercalate issues
 
 end NucleoVerif.Driver
